@@ -86,7 +86,7 @@ Proof. exact deliver_payloads. Qed.
 
 (* ---------- interleaved semantics (Model/Conc.v): every schedule of suspended requests, disconnects, time-outs ---------- *)
 From Coq Require Import List NArith.
-From NW Require Import Model.Conc Proofs.ConcDefs Proofs.ConcEv Proofs.ConcInv Proofs.ConcSmall Proofs.ConcSource Gen.ConcFlags.
+From NW Require Import Model.Conc Proofs.ConcDefs Proofs.ConcEv Proofs.ConcInv Proofs.ConcSmall Proofs.ConcMore Proofs.ConcProgress Proofs.ConcSource Gen.ConcFlags.
 Import ListNotations.
 Local Open Scope N_scope.
 
@@ -99,6 +99,8 @@ Theorem C01_conc_message_confinement :
       cuser (cg s) c = Some u /\
       In u (members (objs (cg s) o)) /\
       In from (members (objs (cg s) o)) /\
+      allowed (racl (objs (cg s) o)) u = true /\
+      allowed (pacl (objs (cg s) o)) from = true /\
       (exists (t : tid) (k : task) (ok : bool) (hint : user),
          e = ERun t ok hint /\
          In (t, k) (tasks s) /\
@@ -109,11 +111,15 @@ Theorem C01_conc_message_confinement :
           (exists id : N, t_pc k = PBcastWait ch o payload id))).
 Proof. exact conc_message_confinement. Qed.
 
+Theorem C01_conc_targets_cache :
+  forall (cf : ccfg) (es : list ev) (o : oid),
+    let g := cg (cstate_after cf es) in
+    targets (objs g o) = filter (allowed (racl (objs g o))) (members (objs g o)).
+Proof. exact conc_targets_cache. Qed.
+
 Theorem C01_source_segment_layout :
   forallb snd conc_source_shape = true.
 Proof. exact source_segment_layout. Qed.
-
-From NW Require Import Proofs.ConcMore.
 
 Theorem C01_conc_namesake_inherits_during_cleanup_refuted :
   let r := crun cf_k cinit namesake_schedule in
